@@ -361,4 +361,6 @@ def main(tier):
                   "PlainMonthDay::from_str builds the month-day with %s; the month-day grammar does not check the day against "
                   "the month, so anything but Reject turns `02-30` into a valid value" % (consts or "no validating constructor"),
                   fmd.loc)
+    from ..rules import extra as _x
+    _x.check_parse_time_requires_time(run, fx)
     return run.finish(EXPLANATION)
